@@ -39,9 +39,23 @@ CHECKS.append(_check("C02", "mhkernel", "exploration",
            "deterministic simulation: adversarial scheduling of the accept-site uniform against a reference MH model, NaN/-inf fault injection, local per-transition oracles",
            "DESIGN.md 3.2"))
 
+CHECKS.append(_check("C09", "gibbs", "exploration",
+           "The orchestrator (HybridGibbs / legacy Gibbs) is run with real and scripted block samplers on generated hierarchical "
+           "joints; wrappers around each block sampler feed a trivial reference model (name -> current value). Per block update: "
+           "every block visited once per sweep, the target handed to the block equals the pristine twin joint conditioned on the "
+           "current values of all other blocks (log-density differences at probe points), the sampler starts from the block's "
+           "current value, is advanced exactly the configured number of steps, the stored sweep equals the values after the sweep, "
+           "and a freshly built sampler on the pristine conditional replays the block update bitwise on the same tape.",
+           "Trusted: the block kernels' own correctness (C02/C06/C10), JointDistribution conditioning of the twin (checked "
+           "separately under C01). Invariance of the joint is an argument from these oracles, not a measured law.",
+           "deterministic simulation: orchestrator with real/fake peers, reference model of current block values, tape rewind + stand-alone replay oracle",
+           "DESIGN.md 3.4"))
+
 ENGINES = [
     {"name": "chain", "path": "engines/chain.py", "serves_properties": ["C14"],
      "kind_free_text": "seeded simulator of sampler runs: owns the random tape, the file system, the callback and the target callables; injects splits, checkpoints, crashes, restarts, I/O errors"},
+    {"name": "gibbs", "path": "engines/gibbs.py", "serves_properties": ["C09"],
+     "kind_free_text": "Gibbs orchestrators with real and scripted block samplers; reference model of current block values; tape rewind and stand-alone replay"},
     {"name": "mhkernel", "path": "engines/mhkernel.py", "serves_properties": ["C02"],
      "kind_free_text": "adversarial scheduler of the accept-site uniform with a reference MH model per proposal family; NaN/-inf fault injection at proposals"},
 ]
